@@ -252,6 +252,14 @@ func (ga *GroupAggregator) Add(data any) error {
 				continue
 			}
 
+			// A NULL result of an expression argument is skipped like a NULL column
+			// (FIRST_VALUE/LAST_VALUE keep it; the "expression" pseudo-aggregate and
+			// the post-aggregation placeholder take every row as it is).
+			if result == nil && !ga.shouldAllowNullValues(aggField.AggregateType) &&
+				aggField.AggregateType != Expression && aggField.AggregateType != PostAggregation {
+				continue
+			}
+
 			if groupAgg, exists := ga.groups[key][outputAlias]; exists {
 				groupAgg.Add(result)
 			}
